@@ -76,3 +76,42 @@ Proof.
   cbv zeta. repeat split; try (vm_compute; reflexivity); try (vm_compute; discriminate);
     try (apply Nat.leb_le; vm_compute; reflexivity).
 Qed.
+
+(* non-vacuity of the serialisation-style theorems: a manifest written with its members in
+   another order, whitespace and \u00XX escapes is a different text, satisfies the style
+   hypotheses, parses to the same manifest, and the document built on it decrypts *)
+Definition ex_sty : mstyle := mkMstyle [FNp; FCph; FK; FWfk; FKw] [32; 9]%N 2.
+
+Example styles_hypotheses_satisfiable :
+  Forall (fun b => is_ws b = true) (ms_ws ex_sty) /\ NoDup (ms_order ex_sty) /\
+  (forall f, f <> FK -> In f (ms_order ex_sty)) /\ (In FK (ms_order ex_sty) \/ m_k ex_m = []) /\
+  manifest_text concrete ex_sty ex_m <> manifest_json concrete ex_m /\
+  parse_manifest concrete (manifest_text concrete ex_sty ex_m) = Some ex_m /\
+  let d := encrypt_doc_text concrete 2 (manifest_text concrete ex_sty ex_m) ex_m ex_fk [1; 2; 3; 4; 5]%N in
+  decrypt_stream concrete Fixed 2 400 ex_unwrap [] [Data (firstn 90 d); Zero; DataEOF (skipn 90 d)]
+  = DecStream [1; 2; 3; 4; 5]%N SClean.
+Proof.
+  split; [repeat constructor|]. split.
+  { repeat constructor; cbn; intuition discriminate. }
+  split; [intros [] Hf; cbn; tauto|]. split; [left; cbn; tauto|].
+  split; [intro E; apply (f_equal (@List.length N)) in E; vm_compute in E; discriminate|].
+  split; vm_compute; reflexivity.
+Qed.
+
+(* the toy vault of the callback theorems: wrapping depends on the key NAME *)
+Definition ex_vault_wrap (fk alg kn : list N) : option (list N) :=
+  if eqb_listN kn (str "mykey") then Some (map (N.lxor 90) fk ++ alg)%list else None.
+Definition ex_vault_unwrap (w alg kn : list N) : list N * bool :=
+  if eqb_listN kn (str "mykey") then (map (N.lxor 90) (firstn 32 w), false) else ([], true).
+
+Example roundtrip_callbacks_computed :
+  match encrypt_stream_w concrete 2 400 ex_opts ex_fk ex_np ex_vault_wrap ex_sc with
+  | EncStream d SClean =>
+      decrypt_stream concrete Fixed 2 400 ex_vault_unwrap [] [Data (firstn 100 d); DataEOF (skipn 100 d)]
+      = DecStream [1; 2; 3; 4; 5]%N SClean /\
+      (* under another name the vault refuses, and Decrypt reports a signature error *)
+      decrypt_stream concrete Fixed 2 400 ex_vault_unwrap (str "other") [DataEOF d]
+      = DecCallError DESignature
+  | _ => False
+  end.
+Proof. vm_compute. split; reflexivity. Qed.
